@@ -105,3 +105,101 @@ package ergo
 //@ loop 4 range eligibleEpics
 //@   invariant [ids-epics] forall x string :: contains(ids, x) <==> (has(eligibleTasks,x) || visited(x))
 //@   invariant [ids-fresh] fresh(ids)
+
+// ---- listing and ordering (C01, C08) ----
+
+//@ spec inGraph(g *Graph, t *Task) bool = t != nil && has(g.Tasks, t.ID) && g.Tasks[t.ID] == t
+//@ spec epicMatch(t *Task, epicID string) bool = epicID == "" || t.EpicID == epicID
+//@ spec kindOf(t *Task) Kind = ite(t.IsEpic, "epic", "task")
+//@ spec kindMatch(t *Task, kind Kind) bool = kind == "" || kind == "any" || kindOf(t) == kind
+//@ spec olderOrSame(a *Task, b *Task) bool =
+//@     a.CreatedAt < b.CreatedAt || (a.CreatedAt == b.CreatedAt && a.ID <= b.ID)
+
+//@ func listTasks$1
+//@   requires [idx] 0 <= i && i < len(tasks) && 0 <= j && j < len(tasks)
+//@   requires [elems] forall k int :: 0 <= k && k < len(tasks) ==> tasks[k] != nil
+//@   ensures [less] ret <==> tasks[i].ID < tasks[j].ID
+//@   modifies nothing
+
+//@ func listTasks
+//@   option elems-index
+//@   requires [wf] wfGraph(graph) && wfIDs(graph)
+//@   ensures [members] forall t *Task :: contains(ret, t) <==>
+//@        (inGraph(graph, t) && epicMatch(t, epicID) && (readyOnly ==> specReady(t, graph)))
+//@   ensures [by-id] forall i int, j int :: 0 <= i && i < j && j < len(ret) ==> ret[i].ID <= ret[j].ID
+//@   ensures [fresh] ret == nil || fresh(ret)
+//@   modifies nothing
+//@ loop 0 range graph.Tasks
+//@   invariant [members] forall t *Task :: contains(tasks, t) <==>
+//@        (inGraph(graph, t) && visited(t.ID) && epicMatch(t, epicID) && (readyOnly ==> specReady(t, graph)))
+//@   invariant [fresh] tasks == nil || fresh(tasks)
+
+//@ func filterTasksByKind
+//@   requires [elems] forall k int :: 0 <= k && k < len(tasks) ==> tasks[k] != nil
+//@   ensures [members] forall t *Task :: contains(ret, t) <==> (old(contains(tasks, t)) && kindMatch(t, kind))
+//@   ensures [len] len(ret) <= len(tasks)
+//@   ensures [array] sameArray(ret, tasks)
+//@   modifies []*Task at tasks
+//@ loop 0 range tasks
+//@   invariant [alias] sameArray(filtered, tasks) && cap(filtered) == cap(tasks) && len(filtered) <= index && 0 <= index && index <= len(tasks)
+//@   invariant [suffix] forall k int :: index <= k && k < len(tasks) ==> tasks[k] == old(tasks[k])
+//@   invariant [members] forall t *Task :: contains(filtered, t) <==> (old(prefixHas(tasks, index, t)) && kindMatch(t, kind))
+
+//@ func readyTasks$1
+//@   requires [idx] 0 <= i && i < len(tasks) && 0 <= j && j < len(tasks)
+//@   requires [elems] forall k int :: 0 <= k && k < len(tasks) ==> tasks[k] != nil
+//@   ensures [less] ret <==> (tasks[i].CreatedAt < tasks[j].CreatedAt ||
+//@        (tasks[i].CreatedAt == tasks[j].CreatedAt && tasks[i].ID < tasks[j].ID))
+//@   modifies nothing
+
+//@ spec readyMember(g *Graph, t *Task, epicID string, kind Kind) bool =
+//@     inGraph(g, t) && epicMatch(t, epicID) && specReady(t, g) && kindMatch(t, kind)
+
+//@ func readyTasks
+//@   option elems-index
+//@   requires [wf] wfGraph(graph) && wfIDs(graph)
+//@   ensures [members] forall t *Task :: contains(ret, t) <==> readyMember(graph, t, epicID, kind)
+//@   ensures [ordered] forall i int, j int :: 0 <= i && i < j && j < len(ret) ==> olderOrSame(ret[i], ret[j])
+//@   ensures [nonnil] forall i int :: 0 <= i && i < len(ret) ==> ret[i] != nil
+//@   modifies nothing
+
+// ---- events (C06 and the writers) ----
+
+//@ func newEvent
+//@   ensures [ok] err == nil ==> ret0.Type == eventType && ret0.TS == fmtTime(ts) && content(ret0.Data) == jsonEnc(payload)
+//@   modifies nothing
+
+// (State, ClaimedBy) projection of the replay step for one live, unpruned item id.
+//@ spec evIsFor(e Event, typ string, id string) bool = e.Type == typ
+//@ spec evState(e Event, id string, s string) string =
+//@     ite(e.Type == "state" && decOK_StateEvent(content(e.Data)) && dec_StateEvent(content(e.Data)).ID == id
+//@           && parseOK(dec_StateEvent(content(e.Data)).TS),
+//@         dec_StateEvent(content(e.Data)).NewState, s)
+//@ spec evClaim(e Event, id string, c string) string =
+//@     ite(e.Type == "claim" && decOK_ClaimEvent(content(e.Data)) && dec_ClaimEvent(content(e.Data)).ID == id
+//@           && parseOK(dec_ClaimEvent(content(e.Data)).TS),
+//@         dec_ClaimEvent(content(e.Data)).AgentID,
+//@     ite(e.Type == "unclaim" && decOK_UnclaimEvent(content(e.Data)) && dec_UnclaimEvent(content(e.Data)).ID == id, "",
+//@     ite(e.Type == "state" && decOK_StateEvent(content(e.Data)) && dec_StateEvent(content(e.Data)).ID == id
+//@           && parseOK(dec_StateEvent(content(e.Data)).TS) && clears(dec_StateEvent(content(e.Data)).NewState), "", c)))
+//@ spec effState(evs []Event, id string, s string) string = foldl8(evState, evs, s, id)
+//@ spec effClaim(evs []Event, id string, c string) string = foldl8(evClaim, evs, c, id)
+
+//@ func buildSetEvents
+//@   requires [task] task != nil
+//@   requires [updates] updates != nil
+//@   requires [callback:bodyResolver] res1 == nil ==> res0 == arg0
+//@   canary   [success-two-events] !(err == nil && len(ret0) == 2)
+//@   canary   [success-one-event] !(err == nil && len(ret0) == 1)
+//@   canary   [failure] err == nil
+//@   ensures  [len-bound]      len(ret0) <= 6
+//@   ensures  [err-no-events]  err != nil ==> len(ret0) == 0
+//@   ensures  [valid-state]    err == nil && !task.IsEpic && validState(task.State) ==> validState(effState(ret0, id, task.State))
+//@   ensures  [transition]     err == nil && !task.IsEpic ==>
+//@        (effState(ret0, id, task.State) == task.State || allowed(task.State, effState(ret0, id, task.State)))
+//@   ensures  [claim-inv]      err == nil && !task.IsEpic && validState(task.State) && claimInv(task.State, task.ClaimedBy) ==>
+//@        claimInv(effState(ret0, id, task.State), effClaim(ret0, id, task.ClaimedBy))
+//@   modifies nothing
+//@ loop 0 range updates
+//@   invariant [copy] forall k string :: has(remainingUpdates,k) <==> visited(k)
+//@   invariant [copy-val] forall k string :: visited(k) ==> remainingUpdates[k] == updates[k]
